@@ -48,76 +48,81 @@ theorem csv_row_is_join_of_header_cells (N : NumOps) (mapping : List (String × 
   rw [← csv_row_columns_follow_header]
   simp
 
-/-- Full statement wanted: *a CSV reader splits every row into as many fields as the header has*.
-    It is false of the code for array/object cells and for strings holding a double quote (see the two
-    counterexamples below): cells are the values' compact JSON text, written unquoted.  Proved here for rows
-    whose cells are scalars a reader takes as one field: `null`, booleans, numbers, and strings without `"`
-    (commas and escaped newlines inside such strings are fine — the JSON quotes protect them). -/
-theorem csv_reader_sees_header_columns_partial (N : NumOps) (mapping : List (String × CsvMapping))
-    (sorted : Bool) (r : Json) (hne : mapping ≠ [])
-    (hscalar : ∀ c ∈ rowColumns mapping sorted, ∀ v, c.2.apply N r = some v → ScalarCell v) :
-    splitRow (csvRow N (rowColumns mapping sorted) r) = (rowColumns mapping sorted).map (fun c => cellText N c.2 r) ∧
-    (splitRow (csvRow N (rowColumns mapping sorted) r)).length = (headerKeys mapping sorted).length := by
-  have hsplit : splitRow (csvRow N (rowColumns mapping sorted) r)
-      = (rowColumns mapping sorted).map (fun c => cellText N c.2 r) := by
-    unfold csvRow
-    apply splitRow_join
-    · intro h
-      have hlen := congrArg List.length (csv_row_columns_follow_header mapping sorted)
-      have hperm := (csv_header_is_permutation_of_mapping mapping sorted).length_eq
-      simp only [List.map_eq_nil_iff] at h
-      rw [h] at hlen
-      simp only [List.map_nil, List.length_nil, List.length_map] at hlen hperm
-      exact hne (List.length_eq_zero_iff.1 (by omega))
-    · intro t ht
-      simp only [List.mem_map] at ht
-      obtain ⟨c, hc, rfl⟩ := ht
-      unfold cellText
-      cases hv : c.2.apply N r with
-      | none => rfl
-      | some v => exact commaSafe_compact_of_scalar v (hscalar c hc v hv)
-  refine ⟨hsplit, ?_⟩
-  rw [hsplit, ← csv_row_columns_follow_header]
-  simp
-
 /-- numbers are abstract in the theorems; any `NumOps` will do for the witnesses -/
 def anyNum : NumOps := { sum := fun _ => 0, finite := fun _ => true, fmt := fun _ => "0.0" }
 
-/-- DEFECT (key `sink/csv-nonscalar-cell-unquoted`): a mapping that selects an array (say the route's edge
-list) is written as `[0,2]` without CSV quoting; the header has 2 columns, a reader sees 3 fields -/
-theorem csv_array_cell_counterexample :
+/-- FULL (after the repairs `fix: CSV response output escapes its fields` and `… writes a string cell as its
+text`): every written CSV row reads back, under RFC 4180 rules (`SinkRead.readRow`: quoted fields, `""` for
+a quote, commas and line breaks allowed inside quotes), into exactly as many fields as the header has, and
+field `i` is the value of column `i`: a string's text, any other value's JSON text, empty when the mapping
+failed — for every response, mapping (paths, sums, optional), orientation. -/
+theorem csv_row_reads_back (N : NumOps) (mapping : List (String × CsvMapping)) (sorted : Bool) (r : Json)
+    (hne : mapping ≠ []) :
+    SinkRead.readRow (csvRow N (rowColumns mapping sorted) r)
+      = some ((rowColumns mapping sorted).map fun c => cellValue N c.2 r) ∧
+    ((rowColumns mapping sorted).map fun c => cellValue N c.2 r).length = (headerKeys mapping sorted).length := by
+  have hcols : rowColumns mapping sorted ≠ [] := by
+    intro h
+    have hlen := congrArg List.length (csv_row_columns_follow_header mapping sorted)
+    have hperm := (csv_header_is_permutation_of_mapping mapping sorted).length_eq
+    rw [h] at hlen
+    simp only [List.map_nil, List.length_nil, List.length_map] at hlen hperm
+    exact hne (List.length_eq_zero_iff.1 (by omega))
+  constructor
+  · have e : csvRow N (rowColumns mapping sorted) r
+        = joinWith [','] (((rowColumns mapping sorted).map fun c => cellValue N c.2 r).map csvField) := by
+      unfold csvRow
+      congr 1
+      simp only [List.map_map]
+      apply List.map_congr_left
+      intro c _
+      simp only [Function.comp, cellText, cellValue]
+      cases c.2.apply N r with
+      | none => simp [csvField, needsQuotes]
+      | some v => rfl
+    rw [e]
+    exact SinkRead.readRow_join _ (by simpa using hcols)
+  · rw [← csv_row_columns_follow_header]; simp
+
+/-- the header line reads back into the column names, in the order the rows use -/
+theorem csv_header_reads_back (mapping : List (String × CsvMapping)) (sorted : Bool) (hne : mapping ≠ []) :
+    ∃ line, headerText (.csv mapping sorted) = line ++ ['\n'] ∧
+      SinkRead.readRow line = some ((rowColumns mapping sorted).map fun c => c.1.toList) := by
+  refine ⟨joinWith [','] (((headerKeys mapping sorted).map String.toList).map csvField), ?_, ?_⟩
+  · simp only [headerText, initialContents, Option.getD_some, List.map_map]
+    rfl
+  · rw [SinkRead.readRow_join]
+    · rw [← csv_row_columns_follow_header]; simp [List.map_map, Function.comp]
+    · intro h
+      have hperm := (csv_header_is_permutation_of_mapping mapping sorted).length_eq
+      simp only [List.map_eq_nil_iff] at h
+      rw [h] at hperm
+      simp only [List.length_nil, List.length_map] at hperm
+      exact hne (List.length_eq_zero_iff.1 hperm.symm)
+
+/-- witnesses of the repaired defects, now positive (keys `sink/csv-nonscalar-cell-unquoted`,
+`sink/csv-string-cell-json-escaped` fire if they return): an array cell and a string holding a quote and a
+comma each read back as ONE field with the cell's value -/
+example :
     let f := Format.csv [("path", .path "route.path"), ("origin", .path "request.origin_vertex")] false
     let r := Json.obj [("request", .obj [("origin_vertex", .num "0" 0)]),
                        ("route", .obj [("path", .arr [.num "0" 0, .num "2" 0])])]
-    (splitRow (rowOf anyNum f r)).length = 3 ∧ (headerKeys [("path", CsvMapping.path "route.path"),
-      ("origin", .path "request.origin_vertex")] false).length = 2 := by
+    rowOf anyNum f r = txt "0,\"[0,2]\"" ∧ SinkRead.readRow (rowOf anyNum f r) = some [txt "0", txt "[0,2]"] := by
   decide
 
-/-- DEFECT (key `sink/csv-string-cell-json-escaped`): a string cell keeps its JSON escaping (`\"`), which is
-not CSV escaping (`""`): `5" nails, 2 boxes` is split at its comma -/
-theorem csv_quoted_string_cell_counterexample :
+example :
     let f := Format.csv [("name", .path "request.name")] false
     let r := Json.obj [("request", .obj [("name", .str "5\" nails, 2 boxes")])]
-    (splitRow (rowOf anyNum f r)).length = 2 := by
+    rowOf anyNum f r = txt "\"5\"\" nails, 2 boxes\"" ∧
+    SinkRead.readRow (rowOf anyNum f r) = some [txt "5\" nails, 2 boxes"] := by
   decide
 
-example : ∃ v, ScalarCell v ∧ CommaSafe (compact v) ∧ (compact v).contains ',' :=
-  ⟨.str "with, comma", by simp [ScalarCell], by unfold CommaSafe; decide, by decide⟩
-
-/-! ## 2. A record is one line -/
+/-! ## 2. A record is intact text: one line (JSON), one RFC 4180 record (CSV) -/
 
 /-- a newline-delimited JSON record holds no line break (they are escaped inside strings) -/
 theorem json_record_is_one_line (N : NumOps) (r : Json) (h : numsOk r = true) :
     '\n' ∉ rowOf N (.json true) r := by
   simpa [rowOf, formatResponse] using compact_no_newline r h
-
-/-- a CSV row holds no line break, whatever the mapping selects -/
-theorem csv_record_is_one_line (N : NumOps) (hN : N.FmtOk) (mapping : List (String × CsvMapping))
-    (sorted : Bool) (r : Json) (hr : numsOk r = true) (hw : Writable N (.csv mapping sorted) r) :
-    '\n' ∉ rowOf N (.csv mapping sorted) r := by
-  have h := formatResponse_of_writable hw
-  rw [(formatResponse_csv_cases N mapping sorted r _ _ h).1]
-  exact csvRow_no_newline N hN _ r hr
 
 /-- so the chunk one write appends ends in the only newline it contains -/
 theorem record_has_exactly_one_newline (row : List Char) (h : '\n' ∉ row) :
@@ -127,8 +132,42 @@ theorem record_has_exactly_one_newline (row : List Char) (h : '\n' ∉ row) :
   · rw [List.count_append, List.count_eq_zero.2 h]; rfl
   · simp
 
+/-- a CSV row may hold line breaks — inside quoted fields only (a string cell is written as its text): the
+record splitter of a reader (`SinkRead.splitRecords`: a newline ends a record unless inside quotes) cuts any
+sequence of written rows back into exactly those rows, nothing left over -/
+theorem csv_rows_split_back (N : NumOps) (mapping : List (String × CsvMapping)) (sorted : Bool)
+    (rs : List Json) :
+    SinkRead.splitRecords ((rs.map fun r => record (csvRow N (rowColumns mapping sorted) r)).flatten)
+      = (rs.map fun r => csvRow N (rowColumns mapping sorted) r, []) := by
+  have := SinkRead.splitRecords_records (rs.map fun r => csvRow N (rowColumns mapping sorted) r) (by
+    intro row hrow
+    obtain ⟨r, _, rfl⟩ := List.mem_map.1 hrow
+    have e : csvRow N (rowColumns mapping sorted) r
+        = joinWith [','] (((rowColumns mapping sorted).map fun c => cellValue N c.2 r).map csvField) := by
+      unfold csvRow
+      congr 1
+      simp only [List.map_map]
+      apply List.map_congr_left
+      intro c _
+      simp only [Function.comp, cellText, cellValue]
+      cases c.2.apply N r with
+      | none => simp [csvField, needsQuotes]
+      | some v => rfl
+    rw [e]
+    exact SinkRead.balanced_join _)
+  rw [List.map_map] at this
+  exact this
+
 example : ∃ r, numsOk r = true ∧ rowOf anyNum (.json true) r ≠ [] ∧ (compact r).contains '\\' :=
   ⟨.obj [("note", .str "line\nbreak")], rfl, by decide, by decide⟩
+
+example :
+    let f := Format.csv [("note", .path "note"), ("n", .path "n")] true
+    let a := Json.obj [("note", .str "line\nbreak"), ("n", .num "1" 0)]
+    let b := Json.obj [("note", .str "plain"), ("n", .num "2" 0)]
+    (rowOf anyNum f a).contains '\n' = true ∧
+    SinkRead.splitRecords (recordOf anyNum f a ++ recordOf anyNum f b) = ([rowOf anyNum f a, rowOf anyNum f b], []) := by
+  decide
 
 /-! ## 3. Writing never loses information of the response handed back -/
 
@@ -137,13 +176,11 @@ theorem json_write_keeps_response (N : NumOps) (nd : Bool) (r : Json) :
     postOf N (.json nd) r = r := by
   simp [postOf, formatResponse]
 
-/-- Full statement wanted: *every key/value of the response before the write is there, unchanged, after it*
-    — for all responses and mappings.  It holds (this is the repaired behaviour: an existing `error` is
-    kept and the mapping errors go under `csv_error`) unless the response already holds BOTH `error` and
-    `csv_error`; see the counterexample below. -/
-theorem write_never_loses_information_partial (N : NumOps) (f : Format) (r : Json) (row : List Char) (r' : Json)
-    (h : formatResponse N f r = .ok (row, r'))
-    (hkeys : r.get? "error" = none ∨ r.get? "csv_error" = none) :
+/-- FULL (after `fix: CSV response formatting never replaces an earlier csv_error`): every key/value of the
+response before the write is there, unchanged, after it — for all responses, formats and mappings.  The
+mapping errors go under the first of `error`, `csv_error`, `csv_error_2`, … that is not in the response. -/
+theorem write_never_loses_information (N : NumOps) (f : Format) (r : Json) (row : List Char) (r' : Json)
+    (h : formatResponse N f r = .ok (row, r')) :
     ∀ k v, r.get? k = some v → r'.get? k = some v := by
   intro k v hk
   cases f with
@@ -151,72 +188,71 @@ theorem write_never_loses_information_partial (N : NumOps) (f : Format) (r : Jso
     simp only [formatResponse, Outcome.ok.injEq, Prod.mk.injEq] at h
     rw [← h.2]; exact hk
   | csv m s =>
-    rcases (formatResponse_csv_cases N m s r row r' h).2 with rfl | hassign
+    rcases (formatResponse_csv_cases N m s r row r' h).2 with rfl | ⟨key, hkey, _, hassign⟩
     · exact hk
-    · exact get?_indexAssign_new r r' _ _ (csvErrorKey_new r hkeys) hassign k v hk
+    · exact get?_indexAssign_new r r' _ _ (csvErrorKey_new r key hkey) hassign k v hk
 
-/-- in particular a search error survives any CSV mapping (the witness of the fixed defect, generalised) -/
+/-- in particular a search error survives any CSV mapping (the witness of the first fixed defect, generalised) -/
 theorem search_error_survives_csv_write (N : NumOps) (mapping : List (String × CsvMapping)) (sorted : Bool)
     (r : Json) (e : Json) (row : List Char) (r' : Json) (he : r.get? "error" = some e)
-    (hc : r.get? "csv_error" = none)
     (h : formatResponse N (.csv mapping sorted) r = .ok (row, r')) : r'.get? "error" = some e :=
-  write_never_loses_information_partial N _ r row r' h (Or.inr hc) "error" e he
+  write_never_loses_information N _ r row r' h "error" e he
 
-/-- the write changes nothing else: the response is returned as it was, or with exactly one entry added/set
-under `error` or `csv_error` -/
-theorem csv_write_touches_one_key (N : NumOps) (mapping : List (String × CsvMapping)) (sorted : Bool)
+/-- the write changes nothing else: the response is returned as it was, or with exactly one entry added under
+a key that was not there -/
+theorem csv_write_adds_one_new_key (N : NumOps) (mapping : List (String × CsvMapping)) (sorted : Bool)
     (r : Json) (row : List Char) (r' : Json) (h : formatResponse N (.csv mapping sorted) r = .ok (row, r')) :
-    r' = r ∨ ∃ errs, errs ≠ [] ∧ Json.indexAssign r (csvErrorKey r) (csvErrorValue errs) = some r' ∧
-      (csvErrorKey r = "error" ∨ csvErrorKey r = "csv_error") := by
-  unfold formatResponse at h
-  simp only at h
-  split at h
-  · simp only [Outcome.ok.injEq, Prod.mk.injEq] at h
-    exact Or.inl h.2.symm
-  · rename_i hne
-    split at h
-    · rename_i r'' hr''
-      simp only [Outcome.ok.injEq, Prod.mk.injEq] at h
-      refine Or.inr ⟨_, ?_, by rw [hr'', h.2], ?_⟩
-      · intro e; rw [e] at hne; exact hne rfl
-      · unfold csvErrorKey; split <;> simp
-    · exact absurd h (by simp)
+    r' = r ∨ ∃ key errs, errs ≠ [] ∧ r.get? key = none ∧
+      Json.indexAssign r key (csvErrorValue errs) = some r' := by
+  rcases (formatResponse_csv_cases N mapping sorted r row r' h).2 with e | ⟨key, hkey, hne, hassign⟩
+  · exact Or.inl e
+  · exact Or.inr ⟨key, _, hne, csvErrorKey_new r key hkey, hassign⟩
 
-/-- DEFECT (key `sink/csv-error-replaced`): when the response already holds `error` *and* `csv_error` — e.g.
-the second CSV member of a Combined policy writing a failed query — the earlier `csv_error` is replaced -/
-theorem write_replaces_csv_error_counterexample :
+/-- the search for a free key always ends (an object with `n` entries cannot hold `n + 2` different names) -/
+theorem error_key_search_terminates (r : Json) : ∃ k, csvErrorKey r = some k ∧ r.get? k = none := by
+  obtain ⟨k, hk⟩ := freshErrorKey_terminates r
+  exact ⟨k, hk, csvErrorKey_new r k hk⟩
+
+/-- witness of the repaired defect (key `sink/csv-error-replaced` fires if it returns): a response that
+already holds `error` and `csv_error` keeps both; the mapping errors go under `csv_error_2` -/
+example :
     let f := Format.csv [("distance", .path "route.traversal_summary.distance")] false
     let r := Json.obj [("request", .obj []), ("error", .str "no path"), ("csv_error", .str "from an earlier sink")]
-    (r.get? "csv_error").bind Json.asStr? = some "from an earlier sink" ∧
-    ((postOf anyNum f r).get? "csv_error").bind Json.asStr? = none ∧
-    ((postOf anyNum f r).get? "error").bind Json.asStr? = some "no path" := by
+    ((postOf anyNum f r).get? "csv_error").bind Json.asStr? = some "from an earlier sink" ∧
+    ((postOf anyNum f r).get? "error").bind Json.asStr? = some "no path" ∧
+    ((postOf anyNum f r).get? "csv_error_2").isSome = true := by
   decide
 
-/-- the same through a Combined policy of two CSV files and one failed query: the first member's mapping
-errors (column `distance`) are gone from the response handed back, only the second's (`energy`) remain -/
-theorem combined_csv_sinks_lose_first_errors_counterexample :
+/-- the same through a Combined policy of three CSV files and one failed query: every member's mapping errors
+are in the response handed back -/
+example :
     let mk := fun (f : Format) =>
       ({ format := f, flushEvery := 1, file := [[]], iterations := 0, flushes := 0, poisoned := false } : FileSink)
     let s1 := mk (.csv [("distance", .path "route.traversal_summary.distance")] false)
     let s2 := mk (.csv [("energy", .path "route.traversal_summary.energy")] false)
+    let s3 := mk (.csv [("time", .path "route.traversal_summary.time")] false)
     let r := Json.obj [("request", .obj []), ("error", .str "no path")]
-    (match writeCombined anyNum [s1, s2] r with
-      | .ok _ r' => ((r'.get? "csv_error").bind (·.get? "csv")).bind (fun o => (o.get? "distance").map (fun _ => true))
-      | _ => some false) = none ∧
-    (match writeCombined anyNum [s1, s2] r with
-      | .ok _ r' => ((r'.get? "csv_error").bind (·.get? "csv")).bind (fun o => (o.get? "energy").map (fun _ => true))
-      | _ => some false) = some true := by
+    (match writeCombined anyNum [s1, s2, s3] r with
+      | .ok _ r' =>
+        (((r'.get? "csv_error").bind (·.get? "csv")).bind (·.get? "distance")).isSome &&
+        (((r'.get? "csv_error_2").bind (·.get? "csv")).bind (·.get? "energy")).isSome &&
+        (((r'.get? "csv_error_3").bind (·.get? "csv")).bind (·.get? "time")).isSome &&
+        ((r'.get? "error").bind Json.asStr? == some "no path")
+      | _ => false) = true := by
   decide
 
-/-- responses as the application produces them (objects) can always be written; a JSON value that is
-neither an object nor `null` makes the CSV formatter panic when a mapping fails (modelled, not reachable
-from `CompassApp::run`, whose responses are objects) -/
+/-- responses as the application produces them (objects) can always be written: the formatter returns; a
+JSON value that is neither an object nor `null` makes the CSV formatter panic when a mapping fails
+(modelled, not reachable from `CompassApp::run`, whose responses are objects) -/
 theorem objects_are_writable (N : NumOps) (f : Format) (r : Json) (h : r.isObject = true ∨ r.isNull = true) :
     Writable N f r :=
   writable_of_obj_or_null N f r h
 
 example : ¬ Writable anyNum (.csv [("a", .path "a")] false) (.num "3" 0) := by
-  exact fun h => h rfl
+  rintro ⟨p, hp⟩
+  have : formatResponse anyNum (.csv [("a", .path "a")] false) (.num "3" 0) = .panic := rfl
+  rw [this] at hp
+  cases hp
 
 /-! ## 4. Opening the file: append / overwrite / error-if-exists, header written once -/
 
@@ -232,9 +268,10 @@ theorem open_file_spec (f : Format) (c : List Char) :
     openFile .error f none = some (headerText f) := by
   simp [openFile]
 
-/-- the header of a CSV file is the comma-joined column names and a newline; newline-delimited JSON has none -/
+/-- the header of a CSV file is the comma-joined (CSV-escaped) column names and a newline; newline-delimited JSON has none -/
 theorem header_text_spec (mapping : List (String × CsvMapping)) (sorted : Bool) :
-    headerText (.csv mapping sorted) = joinWith [','] ((headerKeys mapping sorted).map String.toList) ++ ['\n'] ∧
+    headerText (.csv mapping sorted)
+      = joinWith [','] ((headerKeys mapping sorted).map fun k => csvField k.toList) ++ ['\n'] ∧
     headerText (.json true) = [] := by
   simp [headerText, initialContents]
 
